@@ -843,6 +843,47 @@ func proxyGen(prop string) func(c *Ctx) {
 			for _, s := range corner {
 				addProxyCase(c, rg, []byte(s), proxyScript(r), nil, "corner")
 			}
+			// large replies (well beyond one kilobyte, mostly structural characters rather than string contents): big
+			// batches of mixed members, long structured ids, large structured backend results
+			nl := 12
+			if c.Thorough() {
+				nl = 150
+			}
+			for i := 0; i < nl; i++ {
+				script := proxyScript(r)
+				nums := func(k int) []any {
+					var a []any
+					for q := 0; q < k; q++ {
+						a = append(a, json.Number(fmt.Sprint(r.Intn(10))))
+					}
+					return a
+				}
+				switch i % 3 {
+				case 0:
+					k := 10 + r.Intn(Pick(r, []int{10, 40, 120}))
+					var arr []any
+					for q := 0; q < k; q++ {
+						if r.Intn(5) == 0 {
+							arr = append(arr, Pick(r, []any{nil, map[string]any{}, map[string]any{"method": "eth_call"}}))
+						} else {
+							m := genMember(r, rg)
+							m["id"] = json.Number(fmt.Sprint(q))
+							arr = append(arr, m)
+						}
+					}
+					b, _ := json.Marshal(arr)
+					addProxyCase(c, rg, b, script, nil, "large.batch")
+				case 1:
+					m := genMember(r, rg)
+					m["id"] = nums(300 + r.Intn(900))
+					b, _ := json.Marshal(m)
+					addProxyCase(c, rg, b, script, nil, "large.id")
+				default:
+					script["*"] = map[string]any{"kind": "result", "value": map[string]any{"rows": []any{nums(200 + r.Intn(400)), nums(300), map[string]any{"k": nums(100)}}}}
+					b, _ := json.Marshal(map[string]any{"jsonrpc": "2.0", "id": json.Number(fmt.Sprint(i)), "method": "eth_getLogs", "params": []any{map[string]any{}}})
+					addProxyCase(c, rg, b, script, nil, "large.result")
+				}
+			}
 			for i := 0; i < n; i++ {
 				script := proxyScript(r)
 				switch r.Intn(6) {
